@@ -23,6 +23,8 @@ type TLSMat struct {
 	Good      tls.Certificate
 	WrongName tls.Certificate
 	Untrusted tls.Certificate
+	// OnlyLocalhost is issued by the trusted CA for the DNS name "localhost" and nothing else
+	OnlyLocalhost tls.Certificate
 }
 
 var (
@@ -67,6 +69,7 @@ func TLS() *TLSMat {
 		m.Good = leaf(ca, cak, TLSHosts, TLSIPs, 101)
 		m.WrongName = leaf(ca, cak, []string{"other.invalid"}, nil, 102)
 		m.Untrusted = leaf(bad, badk, TLSHosts, TLSIPs, 103)
+		m.OnlyLocalhost = leaf(ca, cak, []string{"localhost"}, nil, 104)
 		tlsMat = m
 	})
 	return tlsMat
